@@ -488,6 +488,9 @@ func (t *trajSpace) allOps(w *World) []Op {
 		if n > 0 && t.spec.Has("pop") {
 			ops = append(ops, Op{K: "pop", C: 0})
 		}
+		if c.TypeID == 42 {
+			ops = append(ops, Op{K: "settype", C: 0, N: 43})
+		}
 		ops = append(ops, t.eventOps()...)
 		return ops
 	}
@@ -533,6 +536,10 @@ func (t *trajSpace) allOps(w *World) []Op {
 	}
 	if n > 0 && t.spec.Has("pop") {
 		ops = append(ops, Op{K: "pop", C: 0})
+	}
+	if c.TypeID == 42 {
+		// the root of a multi-level tree is an index slab: it carries the type
+		ops = append(ops, Op{K: "settype", C: 0, N: 43})
 	}
 	ops = append(ops, t.eventOps()...)
 	return ops
